@@ -3705,6 +3705,17 @@ static void
 evthread_notify_drain_eventfd(evutil_socket_t fd, short what, void *arg)
 {
 	struct event_base *base = arg;
+	if (!(base->evsel->features & EV_FEATURE_ET)) {
+		/* The notify event asks for edge-triggering so that the
+		 * counter never has to be read, but backends without it
+		 * (poll, select) treat it as level-triggered: reset the
+		 * counter, or the descriptor stays readable forever and the
+		 * loop spins. */
+		ev_uint64_t msg;
+		ev_ssize_t r = read(fd, (void *) &msg, sizeof(msg));
+		if (r < 0 && errno != EAGAIN)
+			event_sock_warn(fd, "Error reading from eventfd");
+	}
 	EVBASE_ACQUIRE_LOCK(base, th_base_lock);
 	base->is_notify_pending = 0;
 	EVBASE_RELEASE_LOCK(base, th_base_lock);
